@@ -15,7 +15,8 @@ def run(prog, rep, tier):
                   "opcode; address is exactly the range; X4: `abbrev entry` (dwarf_getabbrev's offset/length/end-sentinel protocol), `attribute`, `code`, "
                   "`label`, `offset`, `form`, `?haschildren`, `?AT_x` on abbreviations, interpreted against abstract tables of 0-3 abbreviations with "
                   "0-2 attributes: every abbreviation and attribute exactly once, in order, numbered from 0, with the stored fields.")
-    rep.not_decided = ("what libdw itself returns for a given file; abbreviation/DIE agreement (dwpp_abbrev_offset reads a libdw-private layout).")
+    rep.not_decided = ("what libdw itself returns for a given file; abbreviation/DIE agreement.")
+    rep.assumptions.append("libdw's private struct Dwarf_Abbrev begins with `Dwarf_Off offset` (dwpp_abbrev_offset reinterprets the storage; the abstract abbreviation answers a reinterpretation as Dwarf_Off& with its offset and nothing else); dwarf_getabbrevattr reports attribute offsets as abbreviation offset + distance from the first attribute and fails for an index past the last attribute")
     rep.assumptions.append("DWARF 5 section 7.7.1 operand table as transcribed in rules/r_tables.py (OP_TABLE); size+block operands count as one value")
     apply(rep, "X1", "operand decoding covers every DW_OP of dwarf.h", r_tables.x1(prog), 150)
     apply(rep, "U2", "seen-lists that are binary-searched are kept sorted", r_tables.u2(prog), 2)
